@@ -52,6 +52,9 @@ func (e *Env) RLocality() {
 		case "RestoreFile", "updateImports", "FileRestorer", "NewRestorer", "NewRestorerWithImports":
 			continue
 		}
+		if e.isResetCtx(fd) {
+			continue // a reset helper of RestoreFile
+		}
 		var stack []ast.Node
 		ast.Inspect(fd.Body, func(nd ast.Node) bool {
 			if nd == nil {
